@@ -36,8 +36,9 @@ class TournamentSelection(GeneticStep):
         target_size: int,
         generation: int,
     ) -> Iterator[Individual]:
-        candidates = list(population)
-        evaluator.evaluate(problem, candidates)
+        pool = list(population)
+        evaluator.evaluate(problem, pool)
+        candidates = pool
         for _ in range(target_size):
             candidates = [random.choice(candidates) for _ in range(self.tournament_size)]
             winner = max(candidates, key=Individual.key_function(problem))
@@ -46,7 +47,7 @@ class TournamentSelection(GeneticStep):
             if not self.with_replacement:
                 candidates.remove(winner)
                 if not candidates:
-                    candidates = list(population)
+                    candidates = list(pool)
 
 
 class LexicaseSelection(GeneticStep):
